@@ -31,6 +31,10 @@ pub enum Op {
     ReloadSelf,
     /// load the bytes of a sibling engine built from `rules2`
     LoadSibling,
+    /// replace the loaded resources by one of three fixed sets
+    UseResources(u8),
+    /// add one extra resource from a fixed pool (rejected when the name is taken)
+    AddResource(u8),
 }
 
 #[derive(Clone, Debug, Serialize, Deserialize)]
@@ -99,7 +103,7 @@ pub fn check_engine(c: &HistCase, obs: &mut Obs) -> Result<(), String> {
         obs.exclude("redirect-priority-tie (choice is free)");
         return Ok(());
     }
-    let res = gen::scriptlet_resources();
+    let mut res = gen::scriptlet_resources();
     let mut rules = c.base.rules.clone();
     let mut e = build_engine(&rules, c.base.debug, c.base.optimize, &res);
     let mut tags: BTreeSet<String> = BTreeSet::new();
@@ -177,6 +181,29 @@ pub fn check_engine(c: &HistCase, obs: &mut Obs) -> Result<(), String> {
                 mutated = true;
                 obs.label("load-sibling");
             }
+            Op::UseResources(k) => {
+                res = match k % 3 {
+                    0 => gen::scriptlet_resources(),
+                    1 => gen::std_resources(),
+                    _ => vec![],
+                };
+                e.use_resources(res.iter().cloned());
+                mutated = true;
+                obs.label("use_resources");
+            }
+            Op::AddResource(k) => {
+                let r = extra_resource(*k);
+                let taken = res.iter().any(|x| x.name == r.name || x.aliases.contains(&r.name) || r.aliases.iter().any(|a| *a == x.name || x.aliases.contains(a)));
+                let ok = e.add_resource(r.clone()).is_ok();
+                if ok == taken {
+                    return Err(format!("op #{}: add_resource({:?}) returned ok={} but the name is {}taken", k, r.name, ok, if taken { "" } else { "not " }));
+                }
+                if ok {
+                    res.push(r);
+                }
+                mutated = true;
+                obs.label("add_resource");
+            }
             Op::Optimize | Op::AddFilter(_) => {}
         }
     }
@@ -184,6 +211,17 @@ pub fn check_engine(c: &HistCase, obs: &mut Obs) -> Result<(), String> {
         obs.nontrivial = true;
     }
     Ok(())
+}
+
+fn extra_resource(k: u8) -> adblock::resources::Resource {
+    use adblock::resources::{MimeType, PermissionMask, Resource, ResourceType};
+    let (name, aliases, kind, body): (&str, Vec<&str>, ResourceType, &str) = match k % 4 {
+        0 => ("missing.js", vec![], ResourceType::Mime(MimeType::ApplicationJavascript), "function missing() { /*MARK-missing*/ }"),
+        1 => ("noop.html", vec!["blank.html"], ResourceType::Mime(MimeType::TextHtml), "<html></html>"),
+        2 => ("extra.gif", vec!["1x1.gif"], ResourceType::Mime(MimeType::ImageGif), "GIF89a"),
+        _ => ("set.js", vec![], ResourceType::Mime(MimeType::ApplicationJavascript), "function other() {}"),
+    };
+    Resource { name: name.into(), aliases: aliases.into_iter().map(|s| s.to_string()).collect(), kind, content: gen::b64(body), dependencies: vec![], permission: PermissionMask::from_bits(0) }
 }
 
 // ---------------------------------------------------------------------------------------------
@@ -333,7 +371,7 @@ pub fn check_blocker(c: &BlkCase, obs: &mut Obs) -> Result<(), String> {
                     }
                 }
             }
-            Op::ReloadSelf | Op::LoadSibling => {}
+            Op::ReloadSelf | Op::LoadSibling | Op::UseResources(_) | Op::AddResource(_) => {}
         }
     }
     if interesting {
@@ -360,6 +398,7 @@ fn ops(t: &mut Tape, nq: usize, blocker: bool, extra_pool: &[String]) -> Vec<Op>
             9 => Op::Policy(t.pick(4) as u8),
             10..=11 => Op::DiscardRegex(t.pick(16)),
             12 => if blocker { Op::Optimize } else { Op::ReloadSelf },
+            15 if !blocker => if t.chance(1, 2) { Op::UseResources(t.pick(3) as u8) } else { Op::AddResource(t.pick(4) as u8) },
             13..=14 => {
                 if blocker {
                     let cfg = OptCfg { allow_unsupported_tag_combos: false, ..Default::default() };
@@ -453,7 +492,7 @@ pub fn decode_blocker(t: &mut Tape) -> BlkCase {
 }
 
 pub fn check(ctx: &mut Ctx) {
-    ctx.rule = "engine: rule list (network + cosmetic + same-shape tagged regex rules) and a history of 4-24 ops over {query all, query one, use/enable/disable tags, set discard policy (default / discard-everything-always / 1ns,1h / disabled), discard_regex(k-th cached id), serialize+deserialize own bytes, deserialize a sibling engine's bytes}; blocker: the same plus Blocker::optimize() and Blocker::add_filter(line). After every query op all answers (network verdict, csp set, cosmetic resources, class/id selectors) are compared with a freshly built engine/blocker from the model's current rules + tag set. Non-trivial = a query op that follows at least one mutator.".into();
+    ctx.rule = "engine: rule list (network + cosmetic + same-shape tagged regex rules) and a history of 4-24 ops over {query all, query one, use/enable/disable tags, set discard policy (default / discard-everything-always / 1ns,1h / disabled), discard_regex(k-th cached id), serialize+deserialize own bytes, deserialize a sibling engine's bytes, use_resources(one of 3 sets), add_resource(one of 4)}; blocker: the same plus Blocker::optimize() and Blocker::add_filter(line). After every query op all answers (network verdict, csp set, cosmetic resources, class/id selectors) are compared with a freshly built engine/blocker from the model's current rules + tag set. Non-trivial = a query op that follows at least one mutator.".into();
     ctx.assumptions = vec![
         "elapsed time is exercised through discard policies and explicit discards; the wall clock is never consulted by the oracle".into(),
         "add_filter of a $badfilter rule, or of a rule an existing $badfilter targets, is documented as unsupported and skipped (counted)".into(),
